@@ -124,7 +124,7 @@ func verifyFunc(prog *Program, fi *FuncInfo, fc *FuncContract, mode *ModeDef) (r
 			}
 		}
 	}
-	for _, ca := range fc.CallAsserts {
+	for _, ca := range append(append([]CallAssert{}, fc.CallAsserts...), fc.CallbackInvs...) {
 		for _, t := range ca.Clause.Tags {
 			tagset[t] = true
 		}
@@ -509,7 +509,116 @@ func structureObligations(prog *Program, tag string) []*Obligation {
 		}
 		out = append(out, implObligation(prog, c))
 	}
+	if tag == "" || tag == "C14" {
+		out = append(out, noPackageStateObligation(prog))
+	}
 	return out
+}
+
+// noPackageStateObligation (C14): the package keeps no mutable state outside its Watcher objects — no package-level
+// variable is assigned, incremented, written through (element, field), locked or has its address taken by non-test
+// code. Two Watchers then share nothing the contracts do not name, which is what the independence claim rests on.
+func noPackageStateObligation(prog *Program) *Obligation {
+	info := prog.Main.TypesInfo
+	label := "the package keeps no mutable state outside its Watcher objects (no package-level variable is written by non-test code)"
+	o := &Obligation{Func: "structure", Kind: "structure", Label: label, Tags: []string{"C14"}, Name: "structure[" + label + "]", Trivial: true, Result: "unsat", Solver: "syntactic scan"}
+	scope := prog.Main.Types.Scope()
+	isPkgVar := func(e ast.Expr) (types.Object, bool) {
+		// the root identifier of e (through index, selector, star, paren) is a package-level variable of this package
+		for {
+			switch v := e.(type) {
+			case *ast.ParenExpr:
+				e = v.X
+				continue
+			case *ast.IndexExpr:
+				e = v.X
+				continue
+			case *ast.StarExpr:
+				e = v.X
+				continue
+			case *ast.SelectorExpr:
+				if id, ok := v.X.(*ast.Ident); ok {
+					if _, isPkg := info.Uses[id].(*types.PkgName); isPkg {
+						return nil, false // another package's variable
+					}
+				}
+				e = v.X
+				continue
+			case *ast.Ident:
+				obj := info.ObjectOf(v)
+				if vr, ok := obj.(*types.Var); ok && !vr.IsField() && vr.Parent() == scope {
+					return obj, true
+				}
+				return nil, false
+			}
+			return nil, false
+		}
+	}
+	bad := func(n ast.Node, obj types.Object, how string) {
+		o.Result, o.Trivial = "sat", false
+		o.Pos = prog.Fset.Position(n.Pos())
+		o.Model = fmt.Sprintf("package-level variable %s is %s at %s", obj.Name(), how, o.Pos)
+	}
+	for _, f := range prog.Main.Syntax {
+		if strings.HasSuffix(prog.Fset.Position(f.Pos()).Filename, "_test.go") {
+			continue
+		}
+		for _, d := range f.Decls {
+			fd, ok := d.(*ast.FuncDecl)
+			if !ok || fd.Body == nil {
+				continue // initialisers of package-level declarations are not writes after initialisation
+			}
+			ast.Inspect(fd.Body, func(n ast.Node) bool {
+				switch st := n.(type) {
+				case *ast.AssignStmt:
+					for _, l := range st.Lhs {
+						if obj, ok := isPkgVar(l); ok {
+							bad(n, obj, "assigned")
+						}
+					}
+				case *ast.IncDecStmt:
+					if obj, ok := isPkgVar(st.X); ok {
+						bad(n, obj, "incremented")
+					}
+				case *ast.UnaryExpr:
+					if st.Op == token.AND {
+						if obj, ok := isPkgVar(st.X); ok {
+							bad(n, obj, "aliased (address taken)")
+						}
+					}
+				case *ast.CallExpr:
+					// a method with a pointer receiver called on a package-level variable (mu.Lock(), buf.Write(...))
+					if se, ok := st.Fun.(*ast.SelectorExpr); ok {
+						if sel := info.Selections[se]; sel != nil && sel.Kind() == types.MethodVal {
+							if fn, ok := sel.Obj().(*types.Func); ok {
+								if sig, ok := fn.Type().(*types.Signature); ok && sig.Recv() != nil {
+									if _, ptr := sig.Recv().Type().(*types.Pointer); ptr {
+										if _, isPtrVar := info.TypeOf(se.X).(*types.Pointer); !isPtrVar {
+											if obj, ok := isPkgVar(se.X); ok {
+												bad(n, obj, "modified through the pointer-receiver method "+fn.Name())
+											}
+										}
+									}
+								}
+							}
+						}
+					}
+				case *ast.RangeStmt:
+					if st.Tok == token.ASSIGN {
+						for _, l := range []ast.Expr{st.Key, st.Value} {
+							if l != nil {
+								if obj, ok := isPkgVar(l); ok {
+									bad(n, obj, "assigned by a range clause")
+								}
+							}
+						}
+					}
+				}
+				return true
+			})
+		}
+	}
+	return o
 }
 
 // implObligation: `impl S.f *T` — every non-test write of field f of S stores a value that is statically a *T:
@@ -679,4 +788,39 @@ func implObligation(prog *Program, c *Clause) *Obligation {
 		})
 	}
 	return o
+}
+
+
+// vacuousCovers: reachability covers are grouped by (function, mode, label); a group is vacuous only if every
+// member is provably unreachable (a call site that is dead in one mode, or one of several sites of the same
+// callee, does not make the call-site clause say nothing).
+func vacuousCovers(obls []*Obligation) []*Obligation {
+	type grp struct {
+		first      *Obligation
+		allUnreach bool
+	}
+	groups := map[string]*grp{}
+	var order []string
+	for _, o := range obls {
+		if o.Kind != "vacuity" {
+			continue
+		}
+		k := o.Func + "|" + o.Mode + "|" + o.Label
+		g, ok := groups[k]
+		if !ok {
+			g = &grp{first: o, allUnreach: true}
+			groups[k] = g
+			order = append(order, k)
+		}
+		if o.Result != "unsat" {
+			g.allUnreach = false
+		}
+	}
+	var out []*Obligation
+	for _, k := range order {
+		if groups[k].allUnreach {
+			out = append(out, groups[k].first)
+		}
+	}
+	return out
 }
